@@ -49,10 +49,12 @@ def gen_schedule(r):
 def gen_config_value(r, depth=0):
     k = r.random()
     if depth > 2 or k < 0.45:
-        return r.choice(["img:latest", "x", 1, 80, True, False, None, ("d", "1.5")])
+        return r.choice(["img:latest", "x", 1, 80, True, False, None, ("d", "1.5"), ("d", r.choice(FLOATS))])
     if k < 0.7:
         return M(*[(r.choice(["a", "b", "image", "pull"]) + str(i), gen_config_value(r, depth + 1)) for i in range(r.randint(0, 3))])
-    return [r.choice(["-v", "x", 1, True]) for _ in range(r.randint(0, 3))]
+    # lists of scalars (incl. non-finite floats), of maps and of lists
+    return [r.choice(["-v", "x", 1, True, ("d", r.choice(FLOATS))]) if r.random() < 0.7 else gen_config_value(r, depth + 1)
+            for _ in range(r.randint(0, 3))]
 
 
 def gen_executor(r):
@@ -201,6 +203,7 @@ def odd_value(r):
         ["l", [["v", r.choice(pools)], ["v", r.choice(CRONS)]]],
         ["m", [[["v", "x"], ["l", [["m", [[["v", "k"], ["v", 1]]]]]]]]],
         ["m", [[["v", "x"], ["v", ("d", ".nan")]]]],
+        ["m", [[["v", "x"], ["l", [["v", ("d", "1.5")], ["v", ("d", r.choice([".inf", "-.inf", ".nan"]))]]]]]],
     ])
 
 
